@@ -4,11 +4,12 @@ strictly decreases it (as long as the cooperative budget `C` is at least 1), `fl
 starts with something runnable decreases it and `potential s` passes are enough for `drain`.
 -/
 import Desverif.Proofs.ExecMeasure
+import Desverif.Proofs.ExecTime
 namespace Exec
 
 theorem potential_pushEntry (s : St) (e : Entry) : potential (pushEntry s e) = potential s + 1 := by
   unfold pushEntry potential
-  cases e.kind <;> simp <;> omega
+  cases e.kind <;> simp only <;> split <;> simp <;> omega
 
 theorem potential_enqueue (s : St) (k : Kind) (i : Nat) : potential (enqueue s k i) = potential s + 1 :=
   potential_pushEntry _ _
@@ -17,6 +18,8 @@ theorem potential_defer (s : St) (k : Kind) (i : Nat) : potential (defer s k i) 
   unfold defer potential
   simp only [List.length_append, List.length_cons, List.length_nil]
   omega
+
+theorem potential_addTimer (s : St) (tm : Timer) : potential (addTimer s tm) = potential s := rfl
 
 theorem potential_logAt (s : St) (i r : Nat) (o : Phase) : potential (logAt s i r o) = potential s := rfl
 
@@ -156,6 +159,38 @@ theorem potential_runProg (k : Kind) (i : Nat) :
           · have := potential_setTask s t tj { tj with joiner := some (k, i) } hj
             have e : tw3 { tj with joiner := some (k, i) } = tw3 tj := rfl
             omega
+    | sleep d =>
+      simp only [runProg]
+      split
+      · rw [potential_addTimer]
+        have := potential_setProg s i (.sleep d :: r) (.sleeping (s.now + d) :: r) h
+        simp [iw3] at this
+        omega
+      · have h2 := ih c s.now s.phase (logAt (setProg s i r) i rdy org) ht
+        rw [potential_logAt] at h2
+        simp [iw3] at hs
+        have hf := ite_le_one (c = 0)
+        omega
+    | sleepUntil t =>
+      simp only [runProg]
+      split
+      · rw [potential_addTimer]
+        have := potential_setProg s i (.sleepUntil t :: r) (.sleeping t :: r) h
+        simp [iw3] at this
+        omega
+      · have h2 := ih c s.now s.phase (logAt (setProg s i r) i rdy org) ht
+        rw [potential_logAt] at h2
+        simp [iw3] at hs
+        have hf := ite_le_one (c = 0)
+        omega
+    | sleeping t =>
+      simp only [runProg]
+      split
+      · omega
+      · have h2 := ih c s.now s.phase (logAt (setProg s i r) i rdy org) ht
+        rw [potential_logAt] at h2
+        simp [iw3] at hs
+        omega
 
 theorem potential_markPolled (s : St) (i : Nat) : potential (markPolled s i) = potential s := by
   unfold markPolled
@@ -185,17 +220,19 @@ theorem potential_pollTask (P : Params) (hC : 1 ≤ P.C) (e : Entry) (s : St) :
         rw [potential_logAt, potential_markPolled] at this
         omega
 
-theorem potential_setQueue_cons (q : Kind) (s : St) (e : Entry) (r : List Entry) (h : queue q s = e :: r) :
-    potential (setQueue q s r) + 1 = potential s := by
-  cases q <;> simp only [queue] at h <;> simp [setQueue, potential, h] <;> omega
+theorem potential_pop (P : Params) (q : Kind) (s s' : St) (e : Entry) (h : pop P q s = some (e, s')) :
+    potential s' + 1 = potential s := by
+  rcases pop_some P q s s' e h with ⟨r, h1, rfl⟩ | ⟨r, h1, rfl⟩ | ⟨r, h1, rfl⟩ <;>
+    simp [potential, h1] <;> omega
 
 /-- every poll strictly decreases the potential -/
-theorem potential_step (P : Params) (hC : 1 ≤ P.C) (q : Kind) (s : St) (e : Entry) (r : List Entry)
-    (h : queue q s = e :: r) : potential (step P q s) + 1 ≤ potential s := by
+theorem potential_step (P : Params) (hC : 1 ≤ P.C) (q : Kind) (s : St) (x : Entry × St)
+    (h : pop P q s = some x) : potential (step P q s) + 1 ≤ potential s := by
+  obtain ⟨e, s'⟩ := x
   unfold step
   rw [h]
-  have h1 := potential_pollTask P hC e (setQueue q s r)
-  have h2 := potential_setQueue_cons q s e r h
+  have h1 := potential_pollTask P hC e s'
+  have h2 := potential_pop P q s s' e h
   simp only
   omega
 
@@ -206,23 +243,23 @@ theorem potential_runQ (P : Params) (hC : 1 ≤ P.C) (q : Kind) :
   | zero => intro s; exact Nat.le_refl _
   | succ b ih =>
     intro s
-    cases hq : queue q s with
-    | nil => rw [runQ_of_empty P q _ s hq]; exact Nat.le_refl _
-    | cons e r =>
-      rw [runQ_cons P q b s e r hq]
-      have := potential_step P hC q s e r hq
+    cases hq : pop P q s with
+    | none => rw [runQ_of_empty P q _ s hq]; exact Nat.le_refl _
+    | some x =>
+      rw [runQ_cons P q b s x hq]
+      have := potential_step P hC q s x hq
       have := ih (step P q s)
       omega
 
-/-- a non-empty queue and a budget of at least one poll: strict decrease -/
+/-- something to pop and a budget of at least one poll: strict decrease -/
 theorem potential_runQ_lt (P : Params) (hC : 1 ≤ P.C) (q : Kind) (b : Nat) (s : St) (hb : 1 ≤ b)
-    (hq : queue q s ≠ []) : potential (runQ P q b s) + 1 ≤ potential s := by
+    (hq : pop P q s ≠ none) : potential (runQ P q b s) + 1 ≤ potential s := by
   obtain ⟨b', rfl⟩ : ∃ b', b = b' + 1 := ⟨b - 1, by omega⟩
-  cases hq' : queue q s with
-  | nil => exact absurd hq' hq
-  | cons e r =>
-    rw [runQ_cons P q b' s e r hq']
-    have := potential_step P hC q s e r hq'
+  cases hq' : pop P q s with
+  | none => exact absurd hq' hq
+  | some x =>
+    rw [runQ_cons P q b' s x hq']
+    have := potential_step P hC q s x hq'
     have := potential_runQ P hC q b' (step P q s)
     omega
 
@@ -246,60 +283,139 @@ theorem potential_flush (s : St) : potential (flush s) = potential s := by
 
 theorem pass_dq (P : Params) (s : St) : (pass P s).dq = [] := flush_dq _
 
+theorem potential_afterTick (P : Params) (s : St) :
+    potential (afterTick P s) = potential (runQ P .loc P.L (tickStart s)) := by
+  unfold afterTick
+  rw [runQn_eq]
+  simp only
+  split <;> rfl
+
+theorem potential_afterRt (P : Params) (s : St) :
+    potential (afterRt P s) = potential (runQ P .rt P.E (rtStart P s)) := by
+  unfold afterRt
+  rw [runQn_eq]
+  simp only
+  split <;> rfl
+
 theorem potential_pass (P : Params) (hC : 1 ≤ P.C) (s : St) : potential (pass P s) ≤ potential s := by
-  unfold pass afterRt rtStart afterTick tickStart
-  rw [potential_flush]
-  have h1 := potential_runQ P hC .loc P.L { s with phase := .tick }
-  have h2 := potential_runQ P hC .rt P.E { runQ P .loc P.L { s with phase := .tick } with phase := .rtloop }
-  have e1 : potential { s with phase := .tick } = potential s := rfl
-  have e2 : potential { runQ P .loc P.L { s with phase := .tick } with phase := .rtloop }
-      = potential (runQ P .loc P.L { s with phase := .tick }) := rfl
+  unfold pass
+  rw [potential_flush, potential_afterRt]
+  have h1 := potential_runQ P hC .loc P.L (tickStart s)
+  have h2 := potential_runQ P hC .rt P.E (rtStart P s)
+  have e1 : potential (tickStart s) = potential s := rfl
+  have e2 : potential (rtStart P s) = potential (afterTick P s) := rfl
+  rw [potential_afterTick] at e2
   omega
 
 /-- a pass that starts with something runnable strictly decreases the potential -/
 theorem potential_pass_lt (P : Params) (hL : 1 ≤ P.L) (hE : 1 ≤ P.E) (hC : 1 ≤ P.C) (s : St)
-    (hne : ¬(s.rq = [] ∧ s.lq = [])) : potential (pass P s) + 1 ≤ potential s := by
-  unfold pass afterRt rtStart afterTick tickStart
-  rw [potential_flush]
-  have h1 := potential_runQ P hC .loc P.L { s with phase := .tick }
-  have h2 := potential_runQ P hC .rt P.E { runQ P .loc P.L { s with phase := .tick } with phase := .rtloop }
-  have e1 : potential { s with phase := .tick } = potential s := rfl
-  have e2 : potential { runQ P .loc P.L { s with phase := .tick } with phase := .rtloop }
-      = potential (runQ P .loc P.L { s with phase := .tick }) := rfl
+    (hne : ¬(s.rq = [] ∧ s.iq = [] ∧ s.lq = [])) : potential (pass P s) + 1 ≤ potential s := by
+  unfold pass
+  rw [potential_flush, potential_afterRt]
+  have h1 := potential_runQ P hC .loc P.L (tickStart s)
+  have h2 := potential_runQ P hC .rt P.E (rtStart P s)
+  have e1 : potential (tickStart s) = potential s := rfl
+  have e2 : potential (rtStart P s) = potential (afterTick P s) := rfl
+  rw [potential_afterTick] at e2
   by_cases hl : s.lq = []
-  · -- the tick does nothing, the runtime queue is non-empty
-    have hr : s.rq ≠ [] := fun h => hne ⟨h, hl⟩
-    have ht : runQ P .loc P.L { s with phase := .tick } = { s with phase := .tick } :=
-      runQ_of_empty P .loc _ _ hl
-    rw [ht] at h2 ⊢
-    have hr' : queue .rt { { s with phase := .tick } with phase := .rtloop } ≠ [] := hr
-    have := potential_runQ_lt P hC .rt P.E { { s with phase := .tick } with phase := .rtloop } hE hr'
-    have e3 : potential { { s with phase := .tick } with phase := .rtloop } = potential s := rfl
+  · -- the tick does nothing, the runtime has something to pop
+    have hpl : pop P .loc (tickStart s) = none := (pop_none_loc P _).2 hl
+    have ht : runQ P .loc P.L (tickStart s) = tickStart s := runQ_of_empty P .loc _ _ hpl
+    have hrs : (rtStart P s).rq = s.rq ∧ (rtStart P s).iq = s.iq := by
+      unfold rtStart afterTick
+      rw [runQn_eq, ht]
+      simp only
+      split <;> exact ⟨rfl, rfl⟩
+    have hr : pop P .rt (rtStart P s) ≠ none := by
+      intro h
+      have := (pop_none_rt P _).1 h
+      rw [hrs.1, hrs.2] at this
+      exact hne ⟨this.1, this.2, hl⟩
+    have := potential_runQ_lt P hC .rt P.E (rtStart P s) hE hr
     omega
-  · have hl' : queue .loc { s with phase := .tick } ≠ [] := hl
-    have := potential_runQ_lt P hC .loc P.L { s with phase := .tick } hL hl'
+  · have hl' : pop P .loc (tickStart s) ≠ none := fun h => hl ((pop_none_loc P (tickStart s)).1 h)
+    have := potential_runQ_lt P hC .loc P.L (tickStart s) hL hl'
     omega
 
-/-- `potential s` passes are enough: the drain loop ends with nothing runnable -/
+/-- a pass that starts with nothing runnable and nothing deferred leaves the flag alone -/
+theorem pass_idle_lflag (P : Params) (hL : 1 ≤ P.L) (s : St)
+    (h1 : s.rq = []) (h2 : s.iq = []) (h3 : s.lq = []) (h4 : s.dq = []) : (pass P s).lflag = s.lflag := by
+  have hpl : pop P .loc (tickStart s) = none := (pop_none_loc P _).2 h3
+  have ht : afterTick P s = tickStart s := by
+    unfold afterTick
+    rw [runQn_eq, runQ_of_empty P .loc _ _ hpl, polls_of_empty P .loc _ _ hpl]
+    simp only
+    split
+    · rfl
+    · omega
+  have hpr : pop P .rt (rtStart P s) = none := by
+    refine (pop_none_rt P _).2 ?_
+    unfold rtStart
+    rw [ht]
+    exact ⟨h1, h2⟩
+  have hr : (afterRt P s).lflag = s.lflag ∧ (afterRt P s).dq = [] := by
+    unfold afterRt
+    rw [runQn_eq, runQ_of_empty P .rt _ _ hpr, polls_of_empty P .rt _ _ hpr]
+    simp only
+    unfold rtStart
+    rw [ht]
+    split <;> exact ⟨rfl, h4⟩
+  unfold pass flush
+  rw [hr.2]
+  simp only [List.reverse_nil, List.foldl_nil]
+  exact hr.1
+
+/-- `2 * potential + 1` passes are enough: the drain loop ends with nothing runnable -/
 theorem drain_quiet (P : Params) (hL : 1 ≤ P.L) (hE : 1 ≤ P.E) (hC : 1 ≤ P.C) :
-    ∀ (n : Nat) (s : St), potential s ≤ n → s.dq = [] → Quiet (drain P n s) := by
+    ∀ (n : Nat) (s : St), 2 * potential s + (if s.lflag then 1 else 0) ≤ n → s.dq = [] → FL s →
+      Quiet (drain P n s) := by
   intro n
   induction n with
   | zero =>
-    intro s hn hd
+    intro s hn hd _
     unfold potential at hn
     simp only [drain]
-    refine ⟨List.eq_nil_of_length_eq_zero (by omega), List.eq_nil_of_length_eq_zero (by omega), hd⟩
+    refine ⟨List.eq_nil_of_length_eq_zero (by omega), List.eq_nil_of_length_eq_zero (by omega),
+      List.eq_nil_of_length_eq_zero (by omega), hd⟩
   | succ n ih =>
-    intro s hn hd
+    intro s hn hd hf
     simp only [drain]
     split
-    · rename_i hi
-      simp only [Bool.and_eq_true, List.isEmpty_iff] at hi
-      exact ⟨hi.1, hi.2, hd⟩
-    · rename_i hi
-      simp only [Bool.and_eq_true, List.isEmpty_iff] at hi
-      have := potential_pass_lt P hL hE hC s hi
-      exact ih _ (by omega) (pass_dq P s)
+    · rename_i hidle
+      simp only [Bool.and_eq_true, Bool.not_eq_true', List.isEmpty_iff] at hidle
+      rcases hf with hf | hf
+      · exact ⟨hidle.1.2, hidle.2, hf, hd⟩
+      · rw [hidle.1.1] at hf; cases hf
+    · rename_i hidle
+      refine ih _ ?_ (pass_dq P _) (pass_fl P _)
+      have hle := potential_pass P hC { s with lflag := false }
+      have e0 : potential { s with lflag := false } = potential s := rfl
+      have hfl := ite_le_one ((pass P { s with lflag := false }).lflag = true)
+      by_cases hq : s.rq = [] ∧ s.iq = [] ∧ s.lq = []
+      · -- only the flag was set: this pass finds nothing and leaves the flag cleared
+        have hlf : s.lflag = true := by
+          cases hb : s.lflag with
+          | true => rfl
+          | false =>
+            exfalso
+            apply hidle
+            simp [hb, hq.1, hq.2.1]
+        have := pass_idle_lflag P hL { s with lflag := false } hq.1 hq.2.1 hq.2.2 hd
+        simp only at this
+        rw [this]
+        simp only [hlf, if_true] at hn
+        simp
+        omega
+      · have := potential_pass_lt P hL hE hC { s with lflag := false } hq
+        split at hn <;> omega
+
+/-- the repaired `exec` always ends with nothing runnable -/
+theorem exec_quiet (P : Params) (hL : 1 ≤ P.L) (hE : 1 ≤ P.E) (hC : 1 ≤ P.C) (h : List Instr) (s : St) :
+    Quiet (exec P h s) := by
+  unfold exec
+  simp only
+  refine drain_quiet P hL hE hC _ _ ?_ (pass_dq P _) (pass_fl P _)
+  have := ite_le_one ((turn1 P h s).lflag = true)
+  omega
 
 end Exec
